@@ -61,6 +61,9 @@ def gen_case(rng):
         # a long stretch of overruns: the loop falls more than a second behind and must still catch up on the grid
         n_over = (1200000 // P) // 2 + 5
         bodies = [rng.choice([3 * P, 2 * P + 1, 3 * P - 1]) for _ in range(min(n_over, 70))] + [0] * min(2 * n_over + 4, 150) + bodies[:5]
+    if rng.random() < 0.03 and P <= 20000:
+        # hundreds of (individually caught-up) overruns over the life of one delay object
+        bodies = ([rng.choice([P + P // 2, 2 * P + 1])] + [0, 0, 0]) * 280
     return {"mode": "threaded", "P": P, "bodies": bodies, "after_free": rng.choice([1, 2]), "use_with": rng.random() < 0.6, "exit_exc": rng.random() < 0.4, "by_keyword": rng.random() < 0.5,
             "start_offset": rng.randrange(0, 5000)}
 
